@@ -24,7 +24,7 @@ func (rm *room) buildWith(actor user, prevs []string, depth int64, authEvs []gms
 		return nil, err
 	}
 	for _, s := range rm.extraSigners(typ, sk, content, actor.id) {
-		ev = ev.Sign(string(s.Name), s.Current().ID, s.Current().Priv)
+		ev = rm.countersign(ev, s)
 	}
 	return ev, nil
 }
@@ -316,6 +316,7 @@ func (c *c14) opChain() {
 	if kind != "honest" || !model.ok() {
 		r.Nontriv = true
 	}
+	r.State(fmt.Sprintf("chain %s model=%s ok=%v calls=%d", strings.SplitN(kind, ":", 2)[0], model.why(), err == nil, len(c.prov.calls)))
 	if c.prov.offContract || !model.contract {
 		r.Probe("off_contract_provider_answer_used")
 		return
@@ -474,14 +475,22 @@ func (c *c14) opAtState() {
 	}
 	r.Logf("op auth_at_state of %s (%s) allowValidation=%v answer=%q cancelAt=%d", c.desc(target.EventID()), kind, allowValidation, a.comment, sp.cancelAt)
 	model := c.modelAtState(target, a, allowValidation)
+	var provider gmsl.StateProvider = sp
+	if t.Chance(300) {
+		// through the real federated provider: /state_ids and /state answers of the resident
+		provider = &gmsl.FederatedStateProvider{FedClient: &fedState{sp: sp, auth: c.rm.authChainOf}, Origin: c.rm.J().Name, Server: c.rm.R().Name,
+			RememberAuthEvents: t.Bool(), EventToAuthEventIDs: map[string][]string{}, AuthEventMap: map[string]gmsl.PDU{}}
+		r.Probe("atstate_via_federated_state_provider")
+	}
 	var err error
-	if guard(r, "VerifyAuthRulesAtState", func() { err = gmsl.VerifyAuthRulesAtState(ctx, sp, target, allowValidation, uidFor) }) {
+	if guard(r, "VerifyAuthRulesAtState", func() { err = gmsl.VerifyAuthRulesAtState(ctx, provider, target, allowValidation, uidFor) }) {
 		return
 	}
 	r.Logf("  VerifyAuthRulesAtState -> ok=%v ; model fast=%v allowed=%v err=%q calls=%s", err == nil, model.fast, model.allowed, model.err, strings.Join(sp.log, ","))
 	if kind != "honest" || a.comment != "" || sp.fired {
 		r.Nontriv = true
 	}
+	r.State(fmt.Sprintf("atstate %s validate=%v fast=%v allowed=%v err=%q ctx=%v ok=%v", strings.SplitN(kind, ":", 2)[0], allowValidation, model.fast, model.allowed, model.err, sp.fired, err == nil))
 	c.judgeAtState("", target, a, model, err, sp.fired)
 }
 
@@ -546,7 +555,7 @@ func (c *c14) makeBatch() *batch {
 			}
 			e := sim.Pick(t, plain)
 			sk := sim.Pick(t, sigKinds)
-			raw := rm.sigFault(e.ev, sk)
+			raw := rm.sigFault(e.ev, sk, "")
 			nv := rm.parse(raw)
 			if nv == nil || nv.EventID() != e.id() {
 				continue
@@ -771,6 +780,17 @@ func (c *c14) opLoad() {
 		line = append(line, shortID(x.Event.EventID())+"="+classOf(x.Error))
 	}
 	r.Logf("  LoadAndVerify(%d inputs, byAuth=%v) -> %s", len(raws), byAuth, strings.Join(line, " "))
+	{
+		cl := map[string]int{}
+		for _, x := range res {
+			if x.Event != nil {
+				cl[classOf(x.Error)]++
+			} else {
+				cl["nil"]++
+			}
+		}
+		r.State(fmt.Sprintf("load byAuth=%v ok=%d sig=%d chain=%d state=%d nil=%d", byAuth, cl["ok"], cl["signature"], cl["auth_chain"], cl["auth_at_state"], cl["nil"]))
+	}
 	if emptyRes > 0 {
 		dups := 0
 		for _, n := range b.listed() {
@@ -821,7 +841,14 @@ func (c *c14) opLoad() {
 		if sp.fired {
 			// after the injected cancellation an event may fail, it may not pass wrongly
 			if got == "ok" {
-				r.Violate("C14", "load_passes_failing_event", w.class, "after ctx cancellation LoadAndVerify passed %s which fails stage %s", c.desc(id), w.class)
+				switch w.class {
+				case "auth_chain":
+					c.judgeChain("load", ":load", x.Event, w.chain, nil)
+				case "auth_at_state":
+					c.judgeAtState(":load", x.Event, sp.answers[id], w.at, nil, true)
+				default:
+					r.Violate("C14", "load_misses_signature_failure", b.sigBad[id]+"->"+got, "%s has a signature fault (%s) but was classified %s", c.desc(id), b.sigBad[id], got)
+				}
 			}
 			continue
 		}
@@ -837,8 +864,9 @@ func (c *c14) opLoad() {
 			c.judgeAtState(":load", x.Event, sp.answers[id], w.at, nil, false)
 		case got == "auth_at_state" && w.class == "ok":
 			c.judgeAtState(":load", x.Event, sp.answers[id], w.at, errors.New(x.Error.Error()), false)
+		default:
+			r.Violate("C14", "load_wrong_class", w.class+"->"+got, "%s: first failing stage is %s but LoadAndVerify classified it %s (%v)", c.desc(id), w.class, got, x.Error)
 		}
-		r.Violate("C14", "load_wrong_class", w.class+"->"+got, "%s: first failing stage is %s but LoadAndVerify classified it %s (%v)", c.desc(id), w.class, got, x.Error)
 	}
 }
 
